@@ -6,6 +6,7 @@
 -/
 import GoBT.Interp.Exec
 import GoBT.Interp.NoPanicFinal
+import GoBT.Interp.IndexReview
 namespace GoBT.C07
 open GoBT GoBT.Interp GoBT.Script
 
@@ -77,6 +78,11 @@ theorem prepare_total (H : Crypto) (flags : Nat) (ctx : Option Ctx) (u l : Bytes
 theorem execute_never_panics (H : Crypto) (flags : Nat) (ctx : Option Ctx) (unlock lock : Bytes) :
     ∀ site, (execute H flags ctx unlock lock).1 ≠ .panic site :=
   fun site => execute_noPanic H flags ctx unlock lock site
+
+/-- ✓gen — every index / slice expression in the current sources of bscript/interpreter belongs to a function whose
+    expressions were reviewed (GoBT/Interp/IndexReview.lean: why in range, or which `panic` outcome of the model it is),
+    with the number of expressions reviewed: a new or removed index expression breaks this obligation -/
+theorem index_sites_reviewed : indexReviewOk = true := by decide +kernel
 
 /-- and the step trace is bounded by the script lengths: termination with a bounded number of steps is by
     construction (structural recursion), see `runOps_trace_bound` -/
